@@ -24,6 +24,7 @@ import (
 	"encoding/base64"
 	"encoding/json"
 	"math/big"
+	"sort"
 	"strconv"
 )
 
@@ -116,7 +117,16 @@ func ChangeAssets(source string, targets map[string]types.TransferData, accountd
 	responseCoin := types.NewJSONObject()
 	responseFT := types.NewJSONObject()
 
-	for address, transferData := range targets {
+	// iterate the targets in a fixed order: with the source among the targets
+	// (or an amount sequence that only fits in one order) success or failure
+	// must not depend on Go's randomised map iteration
+	addresses := make([]string, 0, len(targets))
+	for address := range targets {
+		addresses = append(addresses, address)
+	}
+	sort.Strings(addresses)
+	for _, address := range addresses {
+		transferData := targets[address]
 		targetAddr := common.HexToAddress(address)
 
 		// 转钱
